@@ -65,8 +65,14 @@ ASSUMPTIONS = [
     "ordinary (non false_positive-labelled) ground truth, as the property states: AP / mAP monotonicity is checked for "
     "labels other than false_positive (an FP-labelled ground truth is ignored by every other label's AP); the TP / FN "
     "statements are checked on all inputs (an FP-labelled ground truth never yields a TP or an FN)",
-    "both threshold lists are valid for the mode (IoU thresholds in [0,1]); invalid ones (incl. float('inf') for an IoU) "
-    "are exercised for the correspondence only (both runs raise AssertionError)",
+    "both threshold lists are valid for the mode (IoU thresholds in [0,1]); invalid ones (incl. float('inf') for an IoU) and 2-D "
+    "results without a matching method for the mode are outside the quantifier: where the model raises there, whatever the real "
+    "code does (which class it raises, or that it returns) is no claim and the case is counted as skipped.  Exception classes are "
+    "never compared; inside the quantifier a raise of the real code is a disagreement, and 'tight run returns, looser run raises' "
+    "is an oracle failure (every TP / the AP is lost)",
+    "TP / FP / TN / FN id lists are compared as sets (the statement orders none of them); of an Ap only its value is observed "
+    "(tp_list / fp_list are C04's subject)",
+    "each case builds its real objects anew (the shared object caches of the C04 module are emptied per case), as its replay does",
     "float('inf') is a legal distance threshold (the validators accept any Real) and counts as looser than every number; "
     "matching scores are finite",
 ]
@@ -254,73 +260,114 @@ def generate(rng, tier):
 
 # ----------------------------------------------------------------------------- the real code
 
-def _posneg(results, gts, targets, mode, thrs):
-    E = base.env()
+class HarnessSetupError(RuntimeError):
+    """building the inputs of a case failed (config, manager, sample data, real objects): an infrastructure error of the check,
+    raised from harness code so that it is never mistaken for an exception of the calls the property is about"""
+
+
+def _setup(what, fn, *a, **kw):
     try:
-        thrs = base.tfl(thrs)
+        return fn(*a, **kw)
+    except Exception as e:  # noqa: BLE001
+        raise HarnessSetupError(f"{what}: {type(e).__name__}: {e}") from e
+
+
+def _fresh_objects():
+    """every case builds its real objects anew, exactly as its stored replay does in a fresh process: the shared object caches
+    of the C04 module (one DynamicObject / result object per descriptor for the whole run) are emptied per case, so that state
+    a changed library keeps ON the objects (memoised decisions, mutated fields) cannot leak from one case into the next"""
+    for name in ("_OBJ", "_RES", "_DESC"):
+        d = getattr(base, name, None)
+        if isinstance(d, dict):
+            d.clear()
+
+
+def _posneg(results, gts, targets, mode, thrs):
+    """`get_positive_objects` / `get_negative_objects` under one threshold list (the calls of `observe_at`): ids, or 'raised'"""
+    E = base.env()
+    thrs = base.tfl(thrs)
+    try:
         tp, fp = E["get_positive_objects"](results, targets, E["MODE"][mode], list(thrs))
-        pos = {"tp": [base._uid(r.estimated_object) for r in tp], "fp": [base._uid(r.estimated_object) for r in fp]}
-    except Exception as e:
+    except Exception as e:  # noqa: BLE001  (the class name is kept for the log only)
         pos = {"err": type(e).__name__}
+    else:
+        pos = {"tp": [base._uid(r.estimated_object) for r in tp], "fp": [base._uid(r.estimated_object) for r in fp]}
     try:
         tn, fn = E["get_negative_objects"](gts, results, targets, E["MODE"][mode], list(thrs))
-        neg = {"tn": [base._uid(g) for g in tn], "fn": [base._uid(g) for g in fn]}
-    except Exception as e:
+    except Exception as e:  # noqa: BLE001
         neg = {"err": type(e).__name__}
+    else:
+        neg = {"tn": [base._uid(g) for g in tn], "fn": [base._uid(g) for g in fn]}
     return {"pos": pos, "neg": neg}
+
+
+def _ap8(a):
+    """what C08 observes of one Ap: its value (`Ap.ap`; inf / nan -> None = undefined)"""
+    return {"ap": base.fnum(a.ap)}
+
+
+def _map_out8(m, mode, thrs):
+    """what C08 observes of one Map: per-label AP / APH values, mAP, mAPH (the tp/fp lists of an Ap are C04's subject)"""
+    return {"mode": mode, "thrs": [float(t) for t in thrs], "aps": [_ap8(a) for a in m.aps], "aphs": [_ap8(a) for a in m.aphs],
+            "map": base.fnum(m.map), "maph": base.fnum(m.maph)}
 
 
 def _map(results, gts, targets, mode, thrs, twod=False, G=None, dperm=None):
     E = base.env()
-    try:
-        thrs = base.tfl(thrs)
-        rd = E["divide_objects"](results, targets)
-        nd = E["divide_objects_to_num"](gts, targets)
-        if G is not None:  # rankings: a free ground-truth count for the first target
-            nd[targets[0]] = G
-        if dperm is not None:  # the same dicts with their keys inserted in another order (both runs alike)
-            import random
-            for k, d in enumerate((rd, nd)):
-                ks = list(d.keys())
-                random.Random(dperm + k).shuffle(ks)
-                items = [(x, d[x]) for x in ks]
-                d.clear()
-                d.update(items)
+    thrs = base.tfl(thrs)
+    rd = E["divide_objects"](results, targets)
+    nd = E["divide_objects_to_num"](gts, targets)
+    if G is not None:  # rankings: a free ground-truth count for the first target
+        nd[targets[0]] = G
+    if dperm is not None:  # the same dicts with their keys inserted in another order (both runs alike)
+        import random
+        for k, d in enumerate((rd, nd)):
+            ks = list(d.keys())
+            random.Random(dperm + k).shuffle(ks)
+            items = [(x, d[x]) for x in ks]
+            d.clear()
+            d.update(items)
+    try:  # the call of `observe_at` ("Ap.ap / Map.map for a results set evaluated under t and under a looser t'")
         m = E["Map"](rd, nd, targets, E["MODE"][mode], list(thrs), is_detection_2d=twod)
-        return base._map_out(m, mode, thrs)
-    except Exception as e:
+    except Exception as e:  # noqa: BLE001
         return {"err": type(e).__name__}
+    return _map_out8(m, mode, thrs)
+
+
+def _run_manager(case, targets):
+    E = base.env()
+    from perception_eval.common.dataset import FrameGroundTruth
+    from perception_eval.common.transform import HomogeneousMatrix
+    from perception_eval.evaluation.result.perception_frame_config import CriticalObjectFilterConfig, PerceptionPassFailConfig
+
+    cfg, mgr = _setup("manager", base._manager, case["targets"], case["fam"], case["policy"])
+    crit = _setup("critical object filter config", CriticalObjectFilterConfig, cfg, list(case.get("crit") or case["targets"]),
+                  max_x_position_list=[150.0] * len(targets), max_y_position_list=[150.0] * len(targets))
+    pf = _setup("pass/fail config", PerceptionPassFailConfig, cfg, list(case.get("pf") or case["targets"]),
+                matching_threshold_list=[2.0] * len(targets))
+    out = {"frames": [], "frame_maps": [], "frame_pn": []}
+    for i, fr in enumerate(case["frames"]):
+        ests = _setup("estimated objects", lambda: [base.mk_obj(o) for o in fr["est"]])
+        gts = _setup("ground-truth objects", lambda: [base.mk_obj(o) for o in fr["gt"]])
+        fgt = _setup("ground-truth frame", lambda: FrameGroundTruth(
+            100, str(i), gts, transforms=[HomogeneousMatrix((0, 0, 0), (1, 0, 0, 0), E["FrameID"].BASE_LINK, E["FrameID"].MAP)]))
+        r = mgr.add_frame_result(100, fgt, ests, crit, pf)  # frame level (exceptions of the real pipeline propagate)
+        kept = r.frame_ground_truth.objects
+        out["frames"].append({"res": [base.describe(x) for x in r.object_results],
+                              "gts": [{"id": base._uid(g), "l": LID[g.semantic_label.label.value]} for g in kept]})
+        out["frame_maps"].append([_map_out8(m, base._mode_name(m.matching_mode), m.matching_threshold_list) for m in r.metrics_score.maps])
+        out["frame_pn"].append({m: [_posneg(r.object_results, kept, targets, m, t) for t in case["fam"][m]] for m in MODES})
+    sc = mgr.get_scene_result()  # scene level
+    out["maps"] = [_map_out8(m, base._mode_name(m.matching_mode), m.matching_threshold_list) for m in sc.maps]
+    return out
 
 
 def run_impl(case):
     E = base.env()
+    _fresh_objects()
     targets = [E["LAB"][t] for t in case["targets"]]
     if case["src"] == "manager":
-        try:
-            from perception_eval.common.dataset import FrameGroundTruth
-            from perception_eval.common.transform import HomogeneousMatrix
-            from perception_eval.evaluation.result.perception_frame_config import CriticalObjectFilterConfig, PerceptionPassFailConfig
-
-            cfg, mgr = base._manager(case["targets"], case["fam"], case["policy"])
-            crit = CriticalObjectFilterConfig(cfg, list(case.get("crit") or case["targets"]), max_x_position_list=[150.0] * len(targets),
-                                              max_y_position_list=[150.0] * len(targets))
-            pf = PerceptionPassFailConfig(cfg, list(case.get("pf") or case["targets"]), matching_threshold_list=[2.0] * len(targets))
-            out = {"frames": [], "frame_maps": [], "frame_pn": []}
-            for i, fr in enumerate(case["frames"]):
-                ests = [base.mk_obj(o) for o in fr["est"]]
-                gts = [base.mk_obj(o) for o in fr["gt"]]
-                fgt = FrameGroundTruth(100, str(i), gts, transforms=[HomogeneousMatrix((0, 0, 0), (1, 0, 0, 0), E["FrameID"].BASE_LINK, E["FrameID"].MAP)])
-                r = mgr.add_frame_result(100, fgt, ests, crit, pf)
-                kept = r.frame_ground_truth.objects
-                out["frames"].append({"res": [base.describe(x) for x in r.object_results],
-                                      "gts": [{"id": base._uid(g), "l": LID[g.semantic_label.label.value]} for g in kept]})
-                out["frame_maps"].append([base._map_out(m, base._mode_name(m.matching_mode), m.matching_threshold_list) for m in r.metrics_score.maps])
-                out["frame_pn"].append({m: [_posneg(r.object_results, kept, targets, m, t) for t in case["fam"][m]] for m in MODES})
-            sc = mgr.get_scene_result()
-            out["maps"] = [base._map_out(m, base._mode_name(m.matching_mode), m.matching_threshold_list) for m in sc.maps]
-            return out
-        except Exception as e:
-            return {"err": type(e).__name__}
+        return _run_manager(case, targets)
     twod = bool(case.get("twod"))
     if case["src"] == "scene":
         fr = case["frame"]
@@ -335,7 +382,7 @@ def run_impl(case):
         seen, gts = set(), []
         for r in results:
             g = r.ground_truth_object
-            if g is not None and id(g) not in seen:
+            if g is not None and id(g) not in seen:  # (de-duplication of the harness' own objects, not a statement about the library)
                 seen.add(id(g))
                 gts.append(g)
         G = case["G"]
@@ -406,62 +453,94 @@ def _bucket(descs, targets, lab):
     return b
 
 
-def _cmp_pn(tag, a, r):
-    for part, keys in (("pos", ("tp", "fp")), ("neg", ("tn", "fn"))):
-        x, y = a[part], r[part]
-        if "err" in x or "err" in y:
-            if x.get("err") != y.get("err"):
-                return f"{tag}.{part}: impl {x} != model {y}"
-            continue
-        for k in keys:
-            if list(x[k]) != list(y[k]):
-                return f"{tag}.{part}.{k}: impl {x[k]} != model {y[k]}"
-    return None
+class _Cmp:
+    """one comparison pass: the first disagreement, and whether a part was left out because the MODEL raises there.
+    The model raises exactly on inputs outside the property's quantifier - IoU thresholds outside [0, 1] (AssertionError today)
+    and 2-D results that have no matching method for the mode (an incidental AttributeError of Ap today).  What the library does
+    with those (which class it raises, or whether a guard makes it return) is no statement of C08: no claim, counted as skip.
+    Inside the quantifier the model returns; there a raise of the real code - of ANY class - is a disagreement."""
 
+    def __init__(self):
+        self.skipped = False
 
-def _cmp_map_or_err(tag, m, r):
-    if "err" in m or "err" in r:
-        return None if m.get("err") == r.get("err") else f"{tag}: impl {m.get('err', 'ok')} != model {r.get('err', 'ok')}"
-    return base._cmp_map(tag, m, r)
+    def pn(self, tag, a, r):
+        for part, keys in (("pos", ("tp", "fp")), ("neg", ("tn", "fn"))):
+            x, y = a[part], r[part]
+            if "err" in y:
+                self.skipped = True
+                continue
+            if "err" in x:
+                return f"{tag}.{part}: impl raised {x['err']}, the model returns {y}"
+            for k in keys:
+                # as multisets: "TP counts ... FN counts" / "a result that is a TP ... is still a TP" order no list
+                if sorted(x[k]) != sorted(y[k]):
+                    return f"{tag}.{part}.{k}: impl {sorted(x[k])} != model {sorted(y[k])} (as sets)"
+        return None
+
+    def ap(self, tag, a, r):
+        """a: {'ap'} of the real Ap; r: the model's Ap output (its `ap` field is what C08 observes)"""
+        if "err" in r:
+            self.skipped = True
+            return None
+        if "err" in a:
+            return f"{tag}: impl raised {a['err']}, the model returns"
+        return None if core.close(a["ap"], core.unq(r["ap"])) else f"{tag}.ap impl {a['ap']} != model {r['ap']}"
+
+    def map(self, tag, m, r):
+        if "err" in r:
+            self.skipped = True
+            return None
+        if "err" in m:
+            return f"{tag}: impl raised {m['err']}, the model returns"
+        if len(m["aps"]) != len(r["aps"]) or len(m["aphs"]) != len(r["aphs"]):
+            return f"{tag}: number of per-label APs differs"
+        for key in ("aps", "aphs"):
+            for i, (a, b) in enumerate(zip(m[key], r[key])):
+                d = self.ap(f"{tag}.{key}[{i}]", a, b)
+                if d:
+                    return d
+        for k in ("map", "maph"):
+            if not core.close(m[k], core.unq(r[k])):
+                return f"{tag}.{k} impl {m[k]} != model {r[k]}"
+        return None
 
 
 def compare(case, out, resps):
+    if not isinstance(out, dict) or "err" in out:
+        return None  # no output of the real code to compare
     it = iter(resps)
+    C = _Cmp()
     if case["src"] == "manager":
         for i, (fr, maps) in enumerate(zip(out["frames"], out["frame_maps"])):
             for m in MODES:
                 for j, _ in enumerate(case["fam"][m]):
-                    d = _cmp_pn(f"frame{i}.{m}[{j}]", out["frame_pn"][i][m][j], next(it))
+                    d = C.pn(f"frame{i}.{m}[{j}]", out["frame_pn"][i][m][j], next(it))
                     if d:
                         return d
             for j, mp in enumerate(maps):
-                d = _cmp_map_or_err(f"frame{i}.map[{j}]", mp, next(it))
+                d = C.map(f"frame{i}.map[{j}]", mp, next(it))
                 if d:
                     return d
         for j, mp in enumerate(out["maps"]):
-            d = _cmp_map_or_err(f"scene.map[{j}]", mp, next(it))
+            d = C.map(f"scene.map[{j}]", mp, next(it))
             if d:
                 return d
-        return None
+        return "skip" if C.skipped else None
     for j, run in enumerate(out["runs"]):
-        d = _cmp_pn(f"run{j}", run, next(it))
+        d = C.pn(f"run{j}", run, next(it))
         if d:
             return d
         r = next(it)
         if case["src"] == "scene":
-            d = _cmp_map_or_err(f"run{j}.map", run["map"], r)
+            d = C.map(f"run{j}.map", run["map"], r)
         else:
             m = run["map"]
-            if "err" in m:
-                a = {"err": m["err"]}
-            else:
-                a = m["aps"][0]
-            d = base._cmp_ap(f"run{j}.ap[0]", a, r["ap"])
+            d = C.ap(f"run{j}.ap[0]", m if "err" in m else m["aps"][0], r["ap"])
             if not d and "err" not in m and m["aphs"]:
-                d = base._cmp_ap(f"run{j}.aph[0]", m["aphs"][0], r["aph"])
+                d = C.ap(f"run{j}.aph[0]", m["aphs"][0], r["aph"])
         if d:
             return d
-    return None
+    return "skip" if C.skipped else None
 
 
 # ----------------------------------------------------------------------------- the property on the two real runs
@@ -476,29 +555,41 @@ def _le(a, b):
     return b >= a - TOL
 
 
-def _is_subseq(a, b):
-    it = iter(b)
-    return all(x in it for x in a)
+def _included(a, b):
+    """every id of `a` is in `b` (with multiplicity).  "a result that is a TP at some matching threshold is still a TP at every
+    looser threshold": an inclusion of SETS of results; the order of the returned lists is no part of the statement"""
+    from collections import Counter
+
+    return not (Counter(a) - Counter(b))
 
 
 def _mono_pn(tag, a, b):
-    for part in ("pos", "neg"):
-        if "err" in a[part] or "err" in b[part]:
-            return None
+    """a: the run under the tight list, b: under the loose one (both lists valid for the mode, entry by entry ordered)"""
+    for part, what in (("pos", "get_positive_objects"), ("neg", "get_negative_objects")):
+        if "err" in a[part]:
+            return None  # nothing to lose: the tight run has no TP list
+        if "err" in b[part]:
+            # "Loosening a matching threshold never loses a TP": the tight run returned its TPs, the loose run returns nothing
+            return (f"{tag}: {what} returns under the tight thresholds ({len(a['pos'].get('tp', []))} TP) but raises "
+                    f"{b[part]['err']} under the looser ones: the looser evaluation keeps no TP and gives no counts at all")
     tp, tp2 = a["pos"]["tp"], b["pos"]["tp"]
-    if not _is_subseq(tp, tp2):
+    if not _included(tp, tp2):
         return f"{tag}: TP estimates {tp} under the tight thresholds are not all TP under the loose ones {tp2}"
     if len(tp2) < len(tp):
         return f"{tag}: TP count decreased {len(tp)} -> {len(tp2)}"
     fn, fn2 = a["neg"]["fn"], b["neg"]["fn"]
-    if len(fn2) > len(fn) or not _is_subseq(fn2, fn):
+    if len(fn2) > len(fn) or not _included(fn2, fn):
         return f"{tag}: FN grew when loosening: {fn} -> {fn2}"
     return None
 
 
 def _mono_map(tag, m, m2, targets):
-    if "err" in m or "err" in m2:
+    if "err" in m:
         return None
+    if "err" in m2:
+        # "AP, APH and mAP computed from the same results are non-decreasing as the threshold is loosened"
+        return (f"{tag}: Map is computed under the tight thresholds {m['thrs']} (mAP {m['map']}) but raises {m2['err']} under the "
+                f"looser ones: AP / mAP are lost")
     for key in ("aps", "aphs"):
         for lab, a, b in zip(targets, m[key], m2[key]):
             if lab == "false_positive":
@@ -522,13 +613,15 @@ def _looser(mode, t1, t2):
 
 
 def oracle(case, out):
-    if "err" in out:
-        return f"unexpected {out['err']}"
+    if not isinstance(out, dict) or "err" in out:
+        # an exception that escaped run_impl (reported by run_check itself under the current convention)
+        return f"unexpected {out.get('err')}" if isinstance(out, dict) else None
     if case["src"] == "manager":
         for i, pn in enumerate(out["frame_pn"]):
             for m in MODES:
                 runs = pn[m]
-                if len(runs) == 2:
+                fam = case["fam"][m]
+                if len(runs) == 2 and _valid(m, *fam) and _looser(m, fam[0], fam[1]):
                     f = _mono_pn(f"frame{i}.{m}", runs[0], runs[1])
                     if f:
                         return f
@@ -537,7 +630,11 @@ def oracle(case, out):
             for mp in maps:
                 by_mode.setdefault(mp["mode"], []).append(mp)
             for m, pair in by_mode.items():
-                if len(pair) == 2 and _looser(m, pair[0]["thrs"], pair[1]["thrs"]):
+                if len(pair) != 2 or m not in MODES or not _valid(m, pair[0]["thrs"], pair[1]["thrs"]):
+                    continue
+                if not _looser(m, pair[0]["thrs"], pair[1]["thrs"]):
+                    pair = pair[::-1]  # the two Maps of a mode in whatever order the library keeps them
+                if _looser(m, pair[0]["thrs"], pair[1]["thrs"]):
                     f = _mono_map(f"{tag}.{m}", pair[0], pair[1], case["targets"])
                     if f:
                         return f
@@ -572,8 +669,8 @@ def branches(case, out):
         b.append("dict:other-key-order")
     if case.get("crit") and case["crit"] != case["targets"]:
         b.append("crit-labels:other-order")
-    if "err" in out:
-        return b + [f"err:{out['err']}"]
+    if not isinstance(out, dict) or "err" in out:
+        return b + [f"err:{out.get('err') if isinstance(out, dict) else out}"]
     if case["src"] == "manager":
         b.append(f"manager:frames={len(out['frames'])}")
         n = sum(len(fr["res"]) for fr in out["frames"])
@@ -594,9 +691,10 @@ def branches(case, out):
     if case.get("policy"):
         b.append("policy=" + case["policy"])
     r0, r1 = out["runs"]
+    raised = lambda x: "raises" if "err" in x else "returns"  # noqa: E731
     for part in ("pos", "neg"):
         if "err" in r0[part] or "err" in r1[part]:
-            b.append(f"{part}:err:{r0[part].get('err')}/{r1[part].get('err')}")
+            b.append(f"{part}:{raised(r0[part])}/{raised(r1[part])}")
     if "err" not in r0["pos"] and "err" not in r1["pos"]:
         b.append("tp" + ("+" if len(r1["pos"]["tp"]) > len(r0["pos"]["tp"]) else "="))
     if "err" not in r0["neg"] and "err" not in r1["neg"]:
@@ -604,7 +702,11 @@ def branches(case, out):
         b.append("tn" + ("-" if len(r1["neg"]["tn"]) < len(r0["neg"]["tn"]) else "="))
     m0, m1 = r0["map"], r1["map"]
     if "err" in m0 or "err" in m1:
-        b.append(f"map:err:{m0.get('err')}/{m1.get('err')}")
+        b.append(f"map:{raised(m0)}/{raised(m1)}")
+        if not _valid(mode, case["thrs"], case["thrs2"]):
+            b.append("skipped:outside-quantifier:invalid-iou-thresholds")
+        elif any(d["s"][mode] == "nm" for d in out["res"]):
+            b.append("skipped:outside-quantifier:result-without-matching-method")
     else:
         for k in ("map", "maph"):
             x, y = m0[k], m1[k]
